@@ -157,18 +157,18 @@ pub fn run(spec: &HistSpec, tier: Tier, seed: u64, replay: Option<Value>) -> i32
     if let Some(r) = replay {
         let steps = runner::j2steps(r.get("case").unwrap_or(&r));
         let res = exec(&mut wk0, &steps);
-        println!("{}", serde_json::to_string_pretty(res.trace.as_ref().unwrap_or(&Value::Null)).unwrap());
+        crate::outln!("{}", serde_json::to_string_pretty(res.trace.as_ref().unwrap_or(&Value::Null)).unwrap());
         return match res.verdict {
             crate::driver::Verdict::Pass => {
-                println!("replay: PASS");
+                crate::outln!("replay: PASS");
                 0
             }
             crate::driver::Verdict::Fail { what, sig } => {
-                println!("replay: FAIL [{}] {}", sig, what);
+                crate::outln!("replay: FAIL [{}] {}", sig, what);
                 1
             }
             crate::driver::Verdict::Infra(m) => {
-                println!("replay: inconclusive: {}", m);
+                crate::outln!("replay: inconclusive: {}", m);
                 2
             }
         };
